@@ -68,10 +68,12 @@ fn main() {
     let cmd = args.get(1).map(String::as_str).unwrap_or("");
     let prop = arg(&args, "--prop").unwrap_or_default();
     let tier = arg(&args, "--tier").unwrap_or_else(|| "quick".into());
-    if cmd == "check" && prop == "C18" {
+    // C10 states the same about the position ("a multiple of the minimum alignment in force" after every public
+    // operation); the conversions are public operations that no history of the C10 space contains
+    if cmd == "check" && (prop == "C18" || prop == "C10") {
         vcore::crash::install();
         let outs = conv::run_all().into_iter().map(|o| (o.id, o.msg, o.nontrivial)).collect();
-        closed_space("C18", "settings-conversions", "--conv", CONV_RULE, &tier, outs, 100);
+        closed_space(&prop, "settings-conversions", "--conv", CONV_RULE, &tier, outs, 100);
     }
     if cmd == "check" && prop == "C14" {
         vcore::crash::install();
